@@ -256,6 +256,8 @@ class CalendarRule(PluginResultIterator):
             add_rule(T.cast(T.Any, case.ruleset))
 
         elif isinstance(case, datetime):
+            if not case.tzinfo:
+                case = case.replace(tzinfo=timezone.utc)
             add_date(case)
         elif isinstance(case, date):
             d: date = case
